@@ -17,8 +17,8 @@ CHECKS = {
                 ref='3/C02'),
     'C03': dict(cat='other', engine='E2',
                 technique='bounded symbolic execution of the real SparseMatrixCSR algebra over a symbolic real scalar; z3 (NRA) decides equality with the dense formula; abort reachability for rejected patterns',
-                text='Every pattern configuration (operands and output pattern) in the bound is executed symbolically; z3 decides over all real values that the result equals the dense textbook formula restricted to the output pattern; incomplete required patterns must reach the abort. Blocked slice: BCSR<2,3> / <2,2> scale, axpy, norms, row norms, lump_rows, scale_rows/cols, transpose, extract_diag against the dense expansion.',
-                note='Trusted: SymReal instantiation, DAG printer, z3 5.1.0, dense oracle. Real arithmetic; sorted duplicate-free layouts; row-walking kernels need >= 1 stored entry (known finding for scale_rows/cols). One defect found and fixed in the blocked slice (BCSR row_norm2). Outside: rounding, sqrt accuracy, BCSR mat-mat products and min/max, larger shapes.',
+                text='Every pattern configuration (operands and output pattern) in the bound is executed symbolically; z3 decides over all real values that the result equals the dense textbook formula restricted to the output pattern; incomplete required patterns must reach the abort. Blocked slice: BCSR<2,3> / <2,2> scale, axpy, norms, row norms, lump_rows, scale_rows/cols, transpose, extract_diag, BCSR double products against the dense expansion; DenseMatrix algebra (multiply overloads, invert, transpose), Banded and CSCR scale/axpy/norm/access.',
+                note='Trusted: SymReal instantiation, DAG printer, z3 5.1.0, dense oracle. Real arithmetic; sorted duplicate-free layouts; row-walking kernels need >= 1 stored entry (known finding for scale_rows/cols). Two defects found and fixed in the added slices (BCSR row_norm2; DenseMatrix::multiply read the uninitialised result). Outside: rounding, sqrt accuracy, BCSR mat-mat products and min/max, larger shapes.',
                 ref='3/C03'),
     'C04': dict(cat='other', engine='E2',
                 technique='bounded symbolic execution of the real vector classes over a symbolic real scalar; z3 (NRA) decides element-wise definitions for every aliasing pattern',
